@@ -305,7 +305,7 @@ impl GenCfg {
             focus,
             tokio: tokio_actors,
             flavours,
-            sequential_pm: args.get_u64("sequential-pm", if miri { 250 } else { 300 }) as u32,
+            sequential_pm: args.get_u64("sequential-pm", if miri { 150 } else { 300 }) as u32,
             max_ops: args.get_u64("max-ops", if miri { 22 } else { 600 }) as usize,
             max_senders: args.get_u64("max-senders", if miri { 3 } else { 6 }) as usize,
             early_drop_pm: args.get_u64("early-drop-pm", 60) as u32,
@@ -402,7 +402,7 @@ pub fn gen_plan(seed: u64, prop: u64, case: u64, cfg: &GenCfg) -> Plan {
     };
     // history size: mostly small, sometimes the maximum
     let max_ops = cfg.max_ops.max(4);
-    let total_ops = match g.below(10) {
+    let total_ops = match if miri { 9 } else { g.below(10) } {
         0..=4 => g.range(4, (max_ops as u64 / 8).max(5)),
         5..=8 => g.range(4, (max_ops as u64 / 3).max(5)),
         _ => g.range(max_ops as u64 / 2, max_ops as u64),
@@ -1921,7 +1921,8 @@ pub fn calibrate_retry_budget() -> Option<u32> {
     // several batch sizes, the largest count wins: a budget that depends on the size of the
     // remainder is not a budget
     let mut best: Option<u32> = None;
-    for n in [1usize, 2, 3, 5] {
+    let sizes: &[usize] = if cfg!(miri) { &[2] } else { &[1, 2, 3, 5] };
+    for &n in sizes {
         let plan = Plan {
             seed: 0,
             case: n as u64,
@@ -2303,7 +2304,13 @@ pub fn check_c07(h: &History, r: &mut Report) -> (u64, u64) {
             None => continue,
         };
         judged_f += 1;
-        let kind = format!("{:?}", f.kind).to_lowercase();
+        let kind = match f.kind {
+            FlushKind::Callback => "callback",
+            FlushKind::Blocking => "blocking",
+            FlushKind::TokioFlush => "tokio-async",
+            FlushKind::TokioBlocking => "tokio-blocking",
+        }
+        .to_string();
         let mut reported = false;
         for s in sends.iter().take_while(|s| s.ret < f.req) {
             judged_i += 1;
